@@ -46,7 +46,7 @@ def check(run, ctx):
     pages = sorted(glob.glob(os.path.join(ctx.root, "docs", "*-linter.md")))
     run.require(len(pages) >= 18, f"only {len(pages)} linter doc pages")
 
-    Y1 = run.rule("Y1", "rule ids used in documented suppressions / output examples are emitted ids, aliases or linter prefixes", floor=40,
+    Y1 = run.rule("Y1", "rule ids used in documented suppressions / output examples are emitted ids, aliases or linter prefixes", floor=25,
                   decides="a documented suppression or filter names a rule that exists; a documented command can be run")
     id_re = re.compile(r"(?:(?:thailint|design-lint):\s*ignore(?:-file|-next-line)?\[|(?:thailint|design-lint):\s*ignore-start\s+|\"rule_id\":\s*\"|Rule ID[^`\n]*`|\"ruleId\":\s*\")([a-z][a-z0-9_-]*(?:\.[a-z0-9_*-]+)?)")
     seen = set()
